@@ -325,7 +325,35 @@ def job(a):
         info = {"K": K, "rows": len(final)}
         if not os.path.exists(os.path.join(tmp, "final.fits")):
             out.append(("file_exists_after_boundary", f"prefix {K} after an un-faulted staged run", "no file"))
-        if kind == "boundaries":
+        if kind == "plot_touches_results":
+            # a user-supplied plot callable that rescales, in place, every array a stage hands it: what the table (and the
+            # file at each boundary) holds was stored BEFORE the callable ran, so the file left when a later stage fails is
+            # still the prefix of the table the same run returns when it is not interrupted
+            def touch(args, values):
+                for v in (values if isinstance(values, tuple) else (values,)):
+                    if isinstance(v, np.ndarray) and v.dtype.kind == "f" and v.flags.writeable:
+                        v *= 1.0 + 2.0**-20
+
+            st = case[1]
+            try:
+                with warnings.catch_warnings():
+                    warnings.simplefilter("ignore")
+                    whole = sim.run(cfg_of(spec), seed=spec.get("seed", 11), output_file=os.path.join(tmp, "whole.fits"), write_stages=True, to_plot=[touch])
+            except Exception as ex:
+                return [("staged_run_completes", "compute(..., to_plot=[callable]) returns", f"{type(ex).__name__}: {str(ex)[:120]}")], info
+            kb = boundary_before_stage(spec["mode"], spec["optical"], spec["radio"], st)
+            if kb is None or len(whole) == 0:
+                return [], info
+            try:
+                with warnings.catch_warnings():
+                    warnings.simplefilter("ignore")
+                    with faults.stage_fault(st, "error", "entry"):
+                        sim.run(cfg_of(spec), seed=spec.get("seed", 11), output_file=path, write_stages=True, to_plot=[touch])
+                out.append(("exception_propagates", f"injected error from stage {st}", "compute() returned normally"))
+            except (faults.InjectedFault, faults.InjectedInterrupt):
+                pass
+            out += [(c, f"plot callable rescales results in place: {e}", o) for c, e, o in judge_file(path, spec, kb, whole)]
+        elif kind == "boundaries":
             # the un-faulted run itself: the number of write boundaries equals the model's
             cnt = {"n": 0}
             try:
@@ -440,6 +468,9 @@ def run(ctx):
         for st in faults.INNER_STAGES:
             jobs.append((sp, ("stage", st, "error", "inner")))
             jobs.append((sp, ("nowrite", st, "error", "inner")))
+    for sp in (base[0], base[1]):
+        for st in ("taus", "decay", "optical_eas", "radio_eas", "radio_integral"):
+            jobs.append((sp, ("plot_touches_results", st)))
     # two-run histories on one output file in one process: (stage that stops run A | none) x (stage that stops run B | none)
     for sp in (base[0], base[1]):
         sts = [None] + [st for st in faults.STAGES if boundary_before_stage(sp["mode"], sp["optical"], sp["radio"], st) is not None]
